@@ -177,6 +177,7 @@ class Contract:
     inline_at_calls: bool = False                                    # verified against this contract, but call sites execute the body
     tag_suffix: dict[str, list[str]] = field(default_factory=dict)   # ensures-label suffix -> properties
     ghost_enter: Callable[[Any], None] | None = None                  # ghost prologue (body verification only)
+    aliases: Callable[[Any], dict] | None = None          # {"self.f": value}: fields that hold exactly this (identical) object/value afterwards
     lists: Callable[[Any], list] | None = None            # structural post-state of row lists, by case (see engine.apply_list_cases)
     lists_on_raise: Callable[[Any], list] | None = None
     yields: Any = None            # generator functions: Sort of the items a consumer receives (consumer loops see an abstract iterable of them)
@@ -242,6 +243,7 @@ def contract(key: str, serves: list[str] | None = None, trusted: bool = False, i
             inline_at_calls=bool(cls.__dict__.get("inline_at_calls", False)),
             tag_suffix=dict(cls.__dict__.get("tag_suffix", {})),
             ghost_enter=_fn(cls, "ghost_enter"),
+            aliases=_fn(cls, "aliases"),
             lists=_fn(cls, "lists"),
             lists_on_raise=_fn(cls, "lists_on_raise"),
             yields=cls.__dict__.get("yields"),
